@@ -186,6 +186,8 @@ def main(run):
         nb = rng.choice((0, 1, 1, 1, 2, 2, 3, 4, 7, 10))
         data = bytes(rng.randrange(256) for _ in range(16 * nb)) if rng.random() < 0.9 else bytes([rng.choice((0, 255))]) * (16 * nb)
         iv = bytes(rng.randrange(256) for _ in range(16))
+        if rng.random() < 0.15:
+            iv = rng.choice([bytes(16), bytes(16), b"\xff" * 16, bytes(15) + b"\x01", b"\x80" + bytes(15)])     # the IVs a fast path would single out (pypdf unwraps file keys with the zero IV)
         kind = rng.choice(kinds)
         op = rng.randrange(4)
         before = len(bad)
